@@ -1,6 +1,5 @@
 import Chain33Model.Model.C18
 import Chain33Model.Proofs.C18
-import Mathlib.Tactic.Ring
 /-!
 C18 helper lemmas for `Computation`: the padded-subtree value `top`, the block decomposition
 invariant `Forest` of the streaming loop, and the specifications of its loops (root part).
@@ -304,7 +303,7 @@ theorem tailLoop_spec (flag2 : Bool) :
       have hlt := level_lt_of_forest nil H2 hF (by omega) hPlen
       have hpow : 2 ^ (level + 1) = 2 * 2 ^ level := by rw [Nat.pow_succ]; omega
       have hcnt1 : count + 2 ^ level = (q + 1) * 2 ^ (level + 1) := by
-        rw [hcnt, hpow]; ring
+        rw [hcnt, hpow]; grind
       have hh1 : H2 h h = top nil H2 (level + 1) S := by rw [hh, top_pad nil H2 level S hne hS]
       have hinner1 : (if (flag2 && matchh) = true then { st with branch := st.branch ++ [h] } else st).inner = st.inner := by
         split <;> rfl
